@@ -66,6 +66,10 @@ func VerifShiftSeq(t Tube, start uint32) bool {
 	return true
 }
 
+// VerifMuxerRunning reports whether the muxer is still in its running state (nobody stopped it, and it did
+// not stop itself after a transport error).
+func VerifMuxerRunning(m *Muxer) bool { return m.state.Load() == muxerRunning }
+
 func VerifNewReceiver(start uint64) *VerifRecv {
 	r := newReceiver(logrus.WithField("verif", "recv"))
 	r.m.Lock()
